@@ -1,5 +1,5 @@
 //! C04 — handshake: connected only after cookie proof; flags are the intersection; message layouts.
-use crate::stubs::{digest_model, LAST_CHALLENGE};
+use crate::stubs::{digest_fn, register_challenge};
 use crate::vassert;
 use crate::vk;
 use edp_client::flags::DistributionFlags;
@@ -110,6 +110,8 @@ pub fn step_challenge(r: &mut Run) -> u32 {
         i += 1;
     }
     // name length fixed to 0 (a symbolic length sizes the name's allocation)
+    let fresh = vk::u32(); // what generate_challenge() will return (clock = arbitrary)
+    register_challenge(fresh);
     let res = r.sm.handle_challenge(&m);
     let their = u32::from_be_bytes([m[9], m[10], m[11], m[12]]);
     let flags = u64::from_be_bytes([m[1], m[2], m[3], m[4], m[5], m[6], m[7], m[8]]);
@@ -117,7 +119,7 @@ pub fn step_challenge(r: &mut Run) -> u32 {
         Ok(()) => {
             vassert!(m[0] == b'N', "L:challenge_tag_checked");
             r.g.have_challenge = true;
-            r.g.our_challenge = unsafe { LAST_CHALLENGE };
+            r.g.our_challenge = fresh;
             r.g.their_flags = flags;
             r.g.valid_connected = false;
             let nf = r.sm.negotiated_flags();
@@ -137,7 +139,7 @@ pub fn step_reply(r: &mut Run, their_challenge: u32) {
     match r.sm.prepare_challenge_reply() {
         Ok(b) => {
             vassert!(r.g.have_challenge, "L:reply_needs_challenge");
-            let d = digest_model(their_challenge, COOKIE);
+            let d = digest_fn(their_challenge, COOKIE);
             let oc = r.g.our_challenge;
             let mut ok = b.len() == 23 && b[0] == 0 && b[1] == 21 && b[2] == b'r'
                 && b[3] == (oc >> 24) as u8 && b[4] == (oc >> 16) as u8 && b[5] == (oc >> 8) as u8 && b[6] == oc as u8;
@@ -159,16 +161,21 @@ pub fn step_reply(r: &mut Run, their_challenge: u32) {
     inv(r);
 }
 
-/// ack: 17 symbolic bytes; accepted iff 'a' ++ D(our challenge of this handshake, cookie)
+/// ack from the peer: tag byte symbolic; digest bytes = D(x, cookie) XOR noise with x and the 16 noise
+/// bytes symbolic (so every 17-byte string is covered, and the same values replay against real MD5);
+/// accepted iff it is 'a' ++ D(our challenge of this handshake, cookie)
 pub fn step_ack(r: &mut Run) {
     let mut m = [0u8; 17];
+    m[0] = vk::u8();
+    let x = vk::u32();
+    let dx = digest_fn(x, COOKIE);
     let mut i = 0;
-    while i < 17 {
-        m[i] = vk::u8();
+    while i < 16 {
+        m[1 + i] = dx[i] ^ vk::u8();
         i += 1;
     }
     let res = r.sm.handle_challenge_ack(&m);
-    let d = digest_model(r.g.our_challenge, COOKIE);
+    let d = digest_fn(r.g.our_challenge, COOKIE);
     let mut matches = r.g.have_challenge && m[0] == b'a';
     i = 0;
     while i < 16 {
